@@ -549,3 +549,8 @@ SPECS["C11"]["level_text"] += (". Added: the isolation step is machine-checked (
                                "view, a view's next read returns exactly its own logical bytes from its own position - every interleaving is a sequence of such steps")
 SPECS["C09"]["contracts"] += ["smpl_extract.alcohol.mdf:is_mdf_image", "smpl_extract.alcohol.mdx:is_mdx_image", "smpl_extract.roland.s7xx.image:is_roland_s7xx_image"]
 SPECS["C09"]["level_text"] += "; the three detection predicates answer whether the header at position 0 parses, let no parser exception out, and put the cursor back where it was"
+_REAL = [f"smpl_extract.akai.volume:Volume._realize_files[n={n}]" for n in (1, 2, 3)]
+SPECS["C14"]["contracts"] += _REAL
+SPECS["C15"]["contracts"] += _REAL
+SPECS["C14"]["level_text"] += ("; Volume._realize_files (1, 2, 3 entries): a file whose lazy parser fails with InvalidFileEntry / ConstructError is left out, every other file is realised in table order "
+                               "and the table itself is left as it was")
